@@ -225,3 +225,24 @@ def linear_equality(rng, vocab):
 
 def rand_point(rng, fluents):
     return {f: Fraction(rng.randint(-40, 40), rng.choice([1, 1, 2, 3, 4, 7])) for f in fluents}
+
+
+def decimal_identity(rng, vocab):
+    """an equality that holds for every valuation in exact arithmetic but not in binary floating point:
+    c1*m + c2*m = (c1+c2)*m, or (A + B) = (B + A) with decimal coefficients inside"""
+    if rng.random() < 0.6:
+        m = monomial(rng, vocab, rng.randint(1, 2))
+        c1, c2 = rng.choice(["0.1", "0.19", "0.7", "2.675", "0.3", "1.1"]), rng.choice(["0.2", "0.5", "0.6", "0.01", "2.2"])
+        tot = str(Fraction(c1) + Fraction(c2))
+        tot = "%s" % (float(Fraction(tot)) if "/" in tot else tot)
+        from decimal import Decimal
+        tot = str(Decimal(c1) + Decimal(c2))
+        left = ("+", ("*", m, num(c1)), ("*", m, num(c2)))
+        right = ("*", m, num(tot))
+        if rng.random() < 0.5:
+            extra = term(rng, vocab, 1, "dec")
+            left, right = ("+", left, extra), ("+", extra, right)
+        return ("=", left, right)
+    a = term(rng, vocab, 1, "dec")
+    b = poly(rng, vocab, 1, 2, "dec")
+    return ("=", ("+", a, b), ("+", b, a)) if rng.random() < 0.5 else ("=", ("+", a, b), ("-", ("+", ("+", a, b), b), b))
